@@ -357,5 +357,48 @@ def rule_x8(repo):
     return res
 
 
+def rule_x9(repo):
+    """The learned clause is a resolvent of named clauses, nothing else: in conflict analysis the clause
+    under construction starts as the conflict clause and changes only through resolution(clause, cnf[id], atom) - each
+    of which is recorded (X1).  A literal removed in any other way ("false at level 0 anyway") is still in the clause
+    that the recorded steps derive, and the replayed trace does not end in the empty clause."""
+    res = RuleResult('C15.X9', 'the clause under construction in conflict analysis changes only by resolution with a named clause', floor=2)
+    f = _nested(repo, 'analyze_conflict')
+    rets = [r for r in ast.walk(f.node) if isinstance(r, ast.Return) and r.value is not None]
+    need(rets, 'analyze_conflict: no result')
+    # the variable that is returned as the learned clause
+    names = set()
+    for r in rets:
+        v = r.value
+        for x in (v.elts if isinstance(v, ast.Tuple) else [v]):
+            if isinstance(x, ast.Name):
+                names.add(x.id)
+    clause_vars = [nm for nm in names if any(isinstance(a, ast.Assign) and is_name(a.targets[0], nm) and isinstance(a.value, ast.Call) and
+                                             call_name(a.value) == 'resolution' for a in ast.walk(f.node))]
+    need(clause_vars, 'analyze_conflict: the clause under construction was not identified')
+    cv = clause_vars[0]
+    for a in ast.walk(f.node):
+        targets = []
+        if isinstance(a, ast.Assign):
+            targets = [t for t in a.targets for t in ([t] if not isinstance(t, (ast.Tuple, ast.List)) else t.elts)]
+        elif isinstance(a, ast.AugAssign):
+            targets = [a.target]
+        if not any(is_name(t, cv) for t in targets):
+            continue
+        v = a.value
+        start = isinstance(v, ast.Subscript) and is_name(v.value, 'cnf')
+        step = isinstance(v, ast.Call) and call_name(v) == 'resolution' and v.args and is_name(v.args[0], cv) and \
+            len(v.args) >= 2 and isinstance(v.args[1], ast.Subscript) and is_name(v.args[1].value, 'cnf')
+        res.add('%s :: solve_cnf.analyze_conflict :: %s = %s' % (SAT, cv, src(v, 40)), start or step,
+                ('the conflict clause' if start else 'resolution with a named clause') if start or step else
+                'line %d changes the clause by `%s`: what is learned is no longer what the recorded resolution steps derive, and the certificate '
+                'replays to a non-empty clause' % (a.lineno, src(v, 50)), '%s:%d' % (SAT, a.lineno))
+    mut = [c for c in ast.walk(f.node) if isinstance(c, ast.Call) and call_attr(c) in ('remove', 'pop', 'append', 'extend', 'clear', 'insert') and is_name(c.func.value, cv)]
+    for c in mut:
+        res.add('%s :: solve_cnf.analyze_conflict :: %s' % (SAT, src(c, 40)), False,
+                'line %d changes the clause in place (`%s`)' % (c.lineno, src(c, 40)), '%s:%d' % (SAT, c.lineno))
+    return res
+
+
 def rules(repo):
-    return [rule_x1(repo), rule_x2(repo), rule_x3(repo), rule_x4(repo), rule_x5(repo), rule_x6(repo), rule_x7(repo), rule_x8(repo)]
+    return [rule_x1(repo), rule_x2(repo), rule_x3(repo), rule_x4(repo), rule_x5(repo), rule_x6(repo), rule_x7(repo), rule_x8(repo), rule_x9(repo)]
